@@ -8,5 +8,31 @@ import txflow
 
 SPEC = txflow.make_spec("C11", "histories over 3-7 txs / 2-5 shared outpoints / 3 sources with inv, blocks (also refused ones), delay checks, clock advances, restarts, in-sync toggles; all arrival orders x sources of a 3-tx conflict pattern; confirmation of seen/unseen conflicting txs; restart at every position of a reference history; distinct = distinct (cfg, ops)")
 
+# Stop while the node is NOT in sync, with a delivered relevant unconfirmed tx: the real Node.Run / Stop against a
+# scripted peer (harness component "shutdown", scenarios and monitor of gen/c19.py / model/Shutdown.v): what a
+# fresh process loads from the store equals the in-memory set, and a re-announcement after the restart is not
+# delivered as a new tx again.
+import c19
+
+_race_extra = SPEC["extra"]
+_flow_keyfn = SPEC["keyfn"]
+
+
+def _extra(tier, rng, workdir):
+    a = _race_extra(tier, rng, workdir)
+    b = c19.persist_scenarios(tier, rng, workdir)
+    out = {"failures": list(a.get("failures", [])) + list(b.get("failures", [])),
+           "red": list(a.get("red", [])) + list(b.get("red", [])),
+           "evaluations": a.get("evaluations", 0) + b.get("evaluations", 0),
+           "coverage": dict(a.get("coverage", {}))}
+    out["coverage"].update(b.get("coverage", {}))
+    return out
+
+
+SPEC["extra"] = _extra
+SPEC["keyfn"] = lambda rc: c19.keyfn(rc) if rc.get("suite") == "shutdown_persist" else _flow_keyfn(rc)
+SPEC["assumptions"] = list(SPEC["assumptions"]) + [
+    "persistence across a clean Stop is checked end to end on the real run loop (gen/c19.py persist_scenarios): Stop while out of sync after a relevant tx was delivered (in sync cleared by a block inventory / tx fed through Node.HandleTx during the initial sync), stored unconfirmed set (ids and flags, fresh TxRepository.Load) = in-memory set, stored tip and peers likewise, restart on the same storage, re-announcement not delivered again"]
+
 if __name__ == "__main__":
     checklib.run_check(SPEC)
